@@ -6,7 +6,7 @@ use vespertide_core::schema::primary_key::{PrimaryKeyDef, PrimaryKeySyntax};
 use vespertide_core::*;
 
 pub const TABLE_POOL: &[&str] = &[
-    "user", "post", "a", "b", "a_b", "order", "item", "tag", "post_tag", "t1", "app_user", "app_", "User", "orderItem",
+    "user", "post", "a", "b", "a_b", "order", "item", "tag", "post_tag", "t1", "app_user", "app_", "User", "orderItem", "item_temp",
 ];
 pub const COL_POOL: &[&str] = &[
     "a", "b", "a_b", "user_id", "post_id", "name", "status", "user", "email", "created_at", "kind",
